@@ -965,16 +965,16 @@ def rule_m(ctx):
 
 
 def run(ctx):
-    rule_m(ctx)
-    rule_l(ctx)
-    rule_k(ctx)
-    rule_j(ctx)
-    rule_i(ctx)
-    rule_a(ctx)
-    rule_b(ctx)
-    rule_c(ctx)
-    rule_d(ctx)
-    rule_e(ctx)
-    rule_f(ctx)
-    rule_g(ctx)
-    rule_h(ctx)
+    ctx.guard(rule_m, ctx)
+    ctx.guard(rule_l, ctx)
+    ctx.guard(rule_k, ctx)
+    ctx.guard(rule_j, ctx)
+    ctx.guard(rule_i, ctx)
+    ctx.guard(rule_a, ctx)
+    ctx.guard(rule_b, ctx)
+    ctx.guard(rule_c, ctx)
+    ctx.guard(rule_d, ctx)
+    ctx.guard(rule_e, ctx)
+    ctx.guard(rule_f, ctx)
+    ctx.guard(rule_g, ctx)
+    ctx.guard(rule_h, ctx)
